@@ -135,6 +135,8 @@ def run(m, tier):
     r11 = rr.rule_continuation(m, "C07.R11")
     r11.title = "the statement -- and so the line an error is reported at -- ends where the continuation ends: " + r11.title
     results.append(r11)
+    from rules import reader_interp
+    results.append(reader_interp.errline_rule(m, "C07.R12", tier))
     expl = ("Decides narrow structural clauses of C07: wherever a message quotes a source line it is source_lines[linecount - 1] of the "
             "same reader whose linecount is printed; every FortranSyntaxError is raised with the function's reader parameter; the "
             "physical line counter is moved by exactly one per line taken/given back on every path and item spans are tied to it "
